@@ -4,3 +4,4 @@ INIT Init
 NEXT Next
 INVARIANT DefaultIffAbsent
 INVARIANT EmitInv
+INVARIANT SelfDefaults
